@@ -37,8 +37,10 @@ Placeholders(ms) == UNION {{<<r, c, x[1], x[2], x[3], x[4]>> : r \in x[1]..x[3],
 Sparse(g) == {<<i, j, g[i][j]>> : i \in 1..Len(g), j \in 1..Len(g[1])} \ {<<i, j, E>> : i \in 1..Len(g), j \in 1..Len(g[1])}
 
 \* ---- grid edits
-InsRows(g, a, n) == SubSeq(g, 1, a - 1) \o [i \in 1..n |-> [j \in 1..Len(g[1]) |-> E]] \o SubSeq(g, a, Len(g))
-InsCols(g, a, n) == [i \in 1..Len(g) |-> SubSeq(g[i], 1, a - 1) \o [j \in 1..n |-> E] \o SubSeq(g[i], a, Len(g[i]))]
+InsRowsD(g, a, n, d) == SubSeq(g, 1, a - 1) \o [i \in 1..n |-> [j \in 1..Len(g[1]) |-> d]] \o SubSeq(g, a, Len(g))
+InsRows(g, a, n) == InsRowsD(g, a, n, E)
+InsColsD(g, a, n, d) == [i \in 1..Len(g) |-> SubSeq(g[i], 1, a - 1) \o [j \in 1..n |-> d] \o SubSeq(g[i], a, Len(g[i]))]
+InsCols(g, a, n) == InsColsD(g, a, n, E)
 DelRows(g, a, n) == SubSeq(g, 1, a - 1) \o SubSeq(g, a + n, Len(g))
 DelCols(g, a, n) == [i \in 1..Len(g) |-> SubSeq(g[i], 1, a - 1) \o SubSeq(g[i], a + n, Len(g[i]))]
 Blank(g, ms) == [i \in 1..Len(g) |-> [j \in 1..Len(g[1]) |-> IF IsPlaceholder(i, j, ms) THEN E ELSE g[i][j]]]
@@ -72,12 +74,13 @@ Merge(rs) ==   \* rs: a non-empty sequence of rectangles (a single range or a li
 Write(r, c, v) ==  \* on an anchor or outside any rectangle (writing into a placeholder is not documented)
   /\ r \in 1..NR /\ c \in 1..NC /\ ~IsPlaceholder(r, c, merges)
   /\ grid' = [grid EXCEPT ![r][c] = v] /\ UNCHANGED <<merges, disk>> /\ Ev([op |-> "write", r |-> r, c |-> c, v |-> v])
-AddRow(n, a) == /\ a \in 1..(NR + 1) /\ NR + n <= MaxR
-                /\ grid' = InsRows(grid, a, n) /\ merges' = InsMerges(merges, 1, a, n) /\ UNCHANGED disk
-                /\ Ev([op |-> "addrow", n |-> n, at |-> a, cut |-> AnyCut(merges, "ins", 1, a, n)])
-AddCol(n, a) == /\ a \in 1..(NC + 1) /\ NC + n <= MaxC
-                /\ grid' = InsCols(grid, a, n) /\ merges' = InsMerges(merges, 2, a, n) /\ UNCHANGED disk
-                /\ Ev([op |-> "addcol", n |-> n, at |-> a, cut |-> AnyCut(merges, "ins", 2, a, n)])
+\* d: the default written into the new cells (E = no default).  New cells that fall inside a rectangle are placeholders and stay empty
+AddRow(n, a, d) == /\ a \in 1..(NR + 1) /\ NR + n <= MaxR
+                   /\ merges' = InsMerges(merges, 1, a, n) /\ grid' = Blank(InsRowsD(grid, a, n, d), merges') /\ UNCHANGED disk
+                   /\ Ev([op |-> "addrow", n |-> n, at |-> a, d |-> d, cut |-> AnyCut(merges, "ins", 1, a, n)])
+AddCol(n, a, d) == /\ a \in 1..(NC + 1) /\ NC + n <= MaxC
+                   /\ merges' = InsMerges(merges, 2, a, n) /\ grid' = Blank(InsColsD(grid, a, n, d), merges') /\ UNCHANGED disk
+                   /\ Ev([op |-> "addcol", n |-> n, at |-> a, d |-> d, cut |-> AnyCut(merges, "ins", 2, a, n)])
 DelRow(n, a) == /\ a \in 1..NR /\ a + n - 1 <= NR /\ NR - n >= 1
                 /\ grid' = DelRows(grid, a, n) /\ merges' = DelMerges(merges, 1, a, n) /\ UNCHANGED disk
                 /\ Ev([op |-> "delrow", n |-> n, at |-> a, cut |-> AnyCut(merges, "del", 1, a, n)])
@@ -91,8 +94,8 @@ InitGrid == [i \in 1..InitR |-> [j \in 1..InitC |-> IF (i + j) % 2 = 0 THEN "a" 
 Init == grid = InitGrid /\ merges = {} /\ disk = <<>> /\ hist = <<>>
 Next == \/ "merge" \in OpsOn /\ \E rs \in RectSets : Merge(rs)
         \/ "write" \in OpsOn /\ \E r \in 1..MaxR, c \in 1..MaxC, v \in Vals : Write(r, c, v)
-        \/ "addrow" \in OpsOn /\ \E a \in 1..(MaxR + 1) : AddRow(1, a)
-        \/ "addcol" \in OpsOn /\ \E a \in 1..(MaxC + 1) : AddCol(1, a)
+        \/ "addrow" \in OpsOn /\ \E a \in 1..(MaxR + 1), d \in {E} \cup Vals : AddRow(1, a, d)
+        \/ "addcol" \in OpsOn /\ \E a \in 1..(MaxC + 1), d \in {E} \cup Vals : AddCol(1, a, d)
         \/ "delrow" \in OpsOn /\ \E a \in 1..MaxR : DelRow(1, a)
         \/ "delcol" \in OpsOn /\ \E a \in 1..MaxC : DelCol(1, a)
         \/ "save" \in OpsOn /\ Save
